@@ -1981,7 +1981,7 @@ where
                 N
             };
 
-            let (right, left) = self.slices_uninit_mut();
+            let (right, _) = self.slices_uninit_mut();
 
             let write_len = core::cmp::min(right.len(), other.len());
             #[cfg(feature = "unstable")]
@@ -1989,7 +1989,13 @@ where
             #[cfg(not(feature = "unstable"))]
             write_uninit_slice_cloned(&mut right[..write_len], &other[..write_len]);
 
+            // Take ownership of the elements cloned so far, so that they are not leaked if cloning
+            // one of the remaining elements panics
+            self.size += write_len;
+
+            // If there are elements left, the free space continues at the start of the array
             let other = &other[write_len..];
+            let (left, _) = self.slices_uninit_mut();
             debug_assert!(left.len() >= other.len());
             let write_len = other.len();
             #[cfg(feature = "unstable")]
@@ -1997,7 +2003,8 @@ where
             #[cfg(not(feature = "unstable"))]
             write_uninit_slice_cloned(&mut left[..write_len], other);
 
-            self.size = final_size;
+            self.size += write_len;
+            debug_assert_eq!(self.size, final_size);
         } else {
             // `other` overwrites the whole buffer; get only the last `N` elements from `other` and
             // overwrite
